@@ -168,6 +168,7 @@ func runC03(c *Ctx) {
 	R.Rule("R-reset-at-end", "E2 must-pass-through", "every transaction end passes through reset() (or Close after a backend panic) before the handler returns", 6)
 	obMessageEndResets(c)
 	ruleAbandonResets(c)
+	ruleAcceptedRecorded(c)
 	ruleTLSSuccessEffects(c) // STARTTLS ends the whole session (Logout, session cleared): the next EHLO creates one that sees the TLS state
 	if f := c.A.Func("(*Conn).handleStartTLS"); f != nil {
 		c.obFollow("TLS upgrade then reset", f, c.direct("st:Conn.conn"), []string{lReset}, nil, nil)
